@@ -74,7 +74,7 @@ func (t *topicsState) Set(message *packet.Publish) error {
 	defer t.mu.Unlock()
 	msg := &api.RetainedMessage{
 		Publish:   message,
-		LastAdded: clock(),
+		LastAdded: t.stamp(message.Topic),
 	}
 	err := t.set(message.Topic, msg)
 	if err != nil {
@@ -88,6 +88,14 @@ func (t *topicsState) Set(message *packet.Publish) error {
 	}
 	t.bcast.QueueBroadcast(simpleBroadcast(buf))
 	return nil
+}
+
+// stamp returns the timestamp of a local update of topic: not older than the entry this node holds for it.
+func (t *topicsState) stamp(topic []byte) int64 {
+	if local, err := t.get(topic); err == nil && len(local) == 1 {
+		return stampAfter(crdt.GetLastEntryUpdate(local[0]))
+	}
+	return clock()
 }
 func (t *topicsState) set(topic []byte, msg *api.RetainedMessage) error {
 	buf, err := proto.Marshal(msg)
@@ -112,7 +120,7 @@ func (t *topicsState) Delete(topic []byte) error {
 			Topic:   topic,
 			Payload: nil,
 		},
-		LastDeleted: clock(),
+		LastDeleted: t.stamp(topic),
 	}
 	err := t.set(topic, msg)
 	if err != nil {
